@@ -8,8 +8,8 @@ def hdr_size(f):
     return 4 + (4 if f & 4 else 0) + (4 if f & 8 else 0) + (4 if f & 16 else 0) + (10 if f & 1 else 0)
 
 
-def acc_name(storage, f, plen, tail, nxt):
-    return "c01_acc_%s_f%02x_p%d_t%d%s" % ("st" if storage else "se", f, plen, tail, "n" if nxt else "")
+def acc_name(storage, f, plen, tail, nxt, gap=0):
+    return "c01_acc_%s_f%02x_p%d_t%d%s%s" % ("st" if storage else "se", f, plen, tail, "n" if nxt else "", "g%d" % gap if gap else "")
 
 
 TAILS = [(0, False), (3, False), (5, False), (5, True), (8, False), (8, True)]
@@ -18,8 +18,8 @@ PLENS = [0, 1, 2, 5]
 
 def accept_shapes():
     """-> list of (name, storage, flags, plen, tail, next, tier)"""
-    quick = {(True, 0, 0, 0, False), (True, ALL, 2, 5, True), (False, ALL, 1, 8, False), (False, 0, 5, 3, False),
-             (True, 17, 5, 8, True), (False, 5, 2, 5, True), (True, 12, 1, 3, False), (False, 24, 0, 0, False)}
+    quick = {(True, 0, 0, 0, False), (True, ALL, 2, 5, True), (False, ALL, 1, 8, False), (False, 5, 2, 5, True)}
+    also = {(False, 0, 5, 3, False), (True, 17, 5, 8, True), (True, 12, 1, 3, False), (False, 24, 0, 0, False)}
     out = {}
     for storage in (True, False):
         for f in FLAGS:
@@ -29,11 +29,22 @@ def accept_shapes():
             for plen in PLENS:
                 for tail, nxt in TAILS:
                     out[(storage, f, plen, tail, nxt)] = "thorough"
+    for k in also:
+        out[k] = "thorough"
     for k in quick:
         out[k] = "quick"
     res = []
     for (storage, f, plen, tail, nxt), tier in sorted(out.items(), key=lambda kv: (not kv[0][0], kv[0][1:])):
-        res.append((acc_name(storage, f, plen, tail, nxt), storage, f, plen, tail, nxt, tier))
+        res.append((acc_name(storage, f, plen, tail, nxt), storage, f, plen, tail, nxt, tier, 0))
+    # message + `gap` garbage bytes + next marker (gap 1..4): the look-ahead heuristic must not see the NEXT message's marker
+    # as "a second marker inside this message" (added after seeded change seeded/C01: loop bound to_consume + 3)
+    quick_gap = {(True, ALL, 2, 1), (False, 0, 1, 2), (True, 0, 0, 2)}
+    for storage in (True, False):
+        for f in (0, ALL):
+            for plen in (0, 2):
+                for gap in (1, 2, 3, 4):
+                    tier = "quick" if (storage, f, plen, gap) in quick_gap else "thorough"
+                    res.append((acc_name(storage, f, plen, gap + 4, True, gap), storage, f, plen, gap + 4, True, tier, gap))
     return res
 
 
